@@ -47,7 +47,8 @@ def _pi():
 def key(state):
     n, v = state
     if n in ('rad', 'dec', 'hp', 'gon'):
-        return (n, float(v).hex())
+        # the Python type is part of the state: a numpy scalar is a different input form of the same number
+        return (n, float(v).hex()) if type(v) is float else (n, type(v).__name__, float(v).hex())
     if n == 'deca':
         return (n, float(v.dec_angle).hex())
     if n == 'hpa':
@@ -172,7 +173,7 @@ def hp_float(d, m, s):
     return float('%d.%02d%0*d' % (d, m, nd + 2, sn))
 
 
-def inject(sign, d, m, s):
+def inject(sign, d, m, s, numpy_forms=False):
     """the lattice angle sign*(d deg m' s") in each of the nine notations"""
     arc = F(d * 3600 + m * 60) + F(s)
     dec = float(arc / 3600)
@@ -190,6 +191,14 @@ def inject(sign, d, m, s):
     if hp is not None:
         out.append(('hpa', sg * hp))
     out.append(('gona', sg * float(arc / 3240)))
+    if numpy_forms:
+        # the same numbers as numpy scalars (array elements, results of numpy arithmetic) and, where exact, as ints
+        for n, v in list(out[:4]):
+            if isinstance(v, float):
+                out.append((n, np.float64(v)))
+        if s == 0 and m == 0:
+            out.append(('dec', sign * d))
+            out.append(('gon', np.int64(sign * d)))
     return out
 
 
@@ -292,9 +301,17 @@ def gen(tier, seed):
         for m in range(60):
             yield {'deg': d, 'min': m, 'secs': sorted(set(sec3 + [(shift + m) % 60])), 'depth': 3}
     # (3) fractional seconds / boundary neighbours / degrees 360..719, depth 3 on a structural set
-    for d in STRUCT_DEG + [360, 361, 419, 420, 539, 540, 719]:
+    for d in STRUCT_DEG + [360, 361, 419, 420, 511, 512, 539, 540, 719]:
         for m in (0, 1, 29, 30, 59):
             yield {'deg': d, 'min': m, 'secs': 'frac', 'depth': 3 if tier == 'thorough' or d in (0, 1, 59, 60, 359, 360, 719) else 2}
+    # (4) the 512-degree precision threshold of HP floats: every whole minute of a few degrees above it, both signs
+    for d in (511, 512, 513, 600, 700, 719):
+        for m in range(60):
+            yield {'deg': d, 'min': m, 'secs': [0, 59], 'depth': 1}
+    # (5) numpy-scalar / int forms of the same numbers (depth 2 from the injected form)
+    for d in (0, 1, 59, 127, 359):
+        for m in (0, 30, 59):
+            yield {'deg': d, 'min': m, 'secs': [0, 30], 'depth': 2, 'numpy': True}
 
 
 def seconds_of(case):
@@ -315,9 +332,9 @@ def ev(case, rec):
         for sign in (1, -1):
             if sign < 0 and d == 0 and m == 0 and s == 0:
                 continue
-            for notation, raw in inject(sign, d, m, s):
+            for notation, raw in inject(sign, d, m, s, bool(case.get('numpy'))):
                 rec._case = {'deg': d, 'min': m, 'sec': float(s), 'sign': sign, 'notation': notation, 'depth': depth,
-                             'secs': [float(s)]}
+                             'secs': [float(s)], 'numpy': bool(case.get('numpy')), 'form': type(raw).__name__}
                 rec.nontriv((sign, d, m, float(s), notation, depth))
                 explore(rec, [notation, raw], depth)
     rec._case = case
@@ -328,8 +345,8 @@ def ev_single(case, rec):
     """replay form produced by rec.fail inside ev: a single injected state"""
     if 'notation' in case:
         s = F(repr(case['sec'])) if not float(case['sec']).is_integer() else F(int(case['sec']))
-        for notation, raw in inject(case['sign'], case['deg'], case['min'], s):
-            if notation == case['notation']:
+        for notation, raw in inject(case['sign'], case['deg'], case['min'], s, bool(case.get('numpy'))):
+            if notation == case['notation'] and type(raw).__name__ == case.get('form', type(raw).__name__):
                 explore(rec, [notation, raw], case['depth'])
         return
     ev(case, rec)
